@@ -222,9 +222,8 @@ def write_if_changed(path, text):
 HEADER = "/- GENERATED by tools/extract_consts.py from {src} -- do not edit; regenerated on every run. -/\nnamespace Flounder.Gen\n\n"
 
 
-def main():
+def gen_bitboard():
     changed = []
-
     # ---------------------------------------------------------------- moves.rs / square.rs / bitboard.rs
     mv = consts_of("moves.rs", {})
     NORTH, EAST, SOUTH, WEST = need(mv, "NORTH", "EAST", "SOUTH", "WEST")
@@ -261,6 +260,11 @@ def main():
     if write_if_changed(os.path.join(OUT, "Bitboard.lean"), t):
         changed.append("Bitboard")
 
+
+    return changed, bbc
+
+def gen_magic(bbc):
+    changed = []
     # ---------------------------------------------------------------- magic.rs
     mg_c = consts_of("magic.rs", bbc)
     RRB, BRB, RM, BM = need(mg_c, "ROOK_RELEVANT_BITS", "BISHOP_RELEVANT_BITS", "ROOK_MAGICS", "BISHOP_MAGICS")
@@ -281,6 +285,11 @@ def main():
     if write_if_changed(os.path.join(OUT, "Magic.lean"), t):
         changed.append("Magic")
 
+
+    return changed
+
+def gen_eval(bbc):
+    changed = []
     # ---------------------------------------------------------------- eval.rs
     pc = consts_of("pieces.rs", {})
     ev = consts_of("eval.rs", {**bbc, **pc})
@@ -306,6 +315,11 @@ def main():
     if write_if_changed(os.path.join(OUT, "Eval.lean"), t):
         changed.append("Eval")
 
+
+    return changed
+
+def gen_search():
+    changed = []
     # ---------------------------------------------------------------- search.rs / killer_moves.rs / uci.rs
     se = consts_of("search.rs", {})
     NI, INF, CM, MVV = need(se, "NEGATIVE_INFINITY", "INFINITY", "CHECKMATE_SCORE", "MVV_LVA_SCORES")
@@ -320,20 +334,7 @@ def main():
     okeys["ORDER_KILLER"] = one(r"is_killer\(mv,\s*ply\)\s*\{\s*return\s+(-?[0-9_]+)\s*;", ss, "killer key")
     okeys["ORDER_PROMO"] = one(r"MoveType::Promotion\s*\{\s*return\s+(-?[0-9_]+)\s*;", ss, "promotion key")
     okeys["ORDER_EP_Q"] = one(r"MoveType::EnPassant\s*\{\s*return\s+(-?[0-9_]+)\s*;", ss, "ep quiescence key")
-    us = strip_comments(open(os.path.join(REPO, "src", "uci.rs")).read())
-    reserve = one(r"let\s+reserve\s*=\s*([0-9_]+)\s*;", us, "reserve")
-    divisor = one(r"let\s+base_time\s*=\s*available\s*/\s*([0-9_]+)\s*;", us, "divisor")
-    ddepth = one(r"let\s+mut\s+depth\s*=\s*([0-9_]+)\s*;", us, "default depth")
-    dmin = one(r"depth\s*=\s*d\.min\(([0-9_]+)\)\s*;", us, "depth cap")
-    dinf = one(r"\"infinite\"\s*=>\s*\{\s*depth\s*=\s*([0-9_]+)\s*;", us, "infinite depth")
-    margin = one(r"\(base_time\s*\+\s*increment\)\s*\.min\(time_left\.saturating_sub\(([0-9_]+)\)\)", us, "budget margin")
-    skip = one(r"time_limit\s*=\s*self\.calculate_move_time\(parts,\s*i\)\s*;\s*i\s*\+=\s*([0-9_]+)\s*;", us, "clock skip")
-    fs = strip_comments(open(os.path.join(REPO, "src", "fen.rs")).read())
-    hm_ty = one(r"fn\s+parse_halfmove_clock\([^)]*\)\s*->\s*(u8|u16|u32|u64)", fs, "halfmove type")
-    fm_ty = one(r"fn\s+parse_fullmove_counter\([^)]*\)\s*->\s*(u8|u16|u32|u64)", fs, "fullmove type")
-    t = HEADER.format(src="src/search.rs, src/killer_moves.rs, src/uci.rs, src/fen.rs")
-    t += f"def FEN_HALFMOVE_BOUND : Nat := {1 << BITS[hm_ty]}\n"
-    t += f"def FEN_FULLMOVE_BOUND : Nat := {1 << BITS[fm_ty]}\n"
+    t = HEADER.format(src="src/search.rs, src/killer_moves.rs")
     t += f"def NEGATIVE_INFINITY : Int := {lean_int(NI)}\n"
     t += f"def INFINITY : Int := {lean_int(INF)}\n"
     t += f"def CHECKMATE_SCORE : Int := {lean_int(CM)}\n"
@@ -345,6 +346,23 @@ def main():
     t += f"def ORDER_KILLER : Int := {lean_int(int(okeys['ORDER_KILLER'].replace('_','')))}\n"
     t += f"def ORDER_PROMO : Int := {lean_int(int(okeys['ORDER_PROMO'].replace('_','')))}\n"
     t += f"def ORDER_EP_Q : Int := {lean_int(int(okeys['ORDER_EP_Q'].replace('_','')))}\n"
+    t += "\nend Flounder.Gen\n"
+    if write_if_changed(os.path.join(OUT, "Search.lean"), t):
+        changed.append("Search")
+
+    return changed
+
+def gen_uci():
+    changed = []
+    us = strip_comments(open(os.path.join(REPO, "src", "uci.rs")).read())
+    reserve = one(r"let\s+reserve\s*=\s*([0-9_]+)\s*;", us, "reserve")
+    divisor = one(r"let\s+base_time\s*=\s*available\s*/\s*([0-9_]+)\s*;", us, "divisor")
+    ddepth = one(r"let\s+mut\s+depth\s*=\s*([0-9_]+)\s*;", us, "default depth")
+    dmin = one(r"depth\s*=\s*d\.min\(([0-9_]+)\)\s*;", us, "depth cap")
+    dinf = one(r"\"infinite\"\s*=>\s*\{\s*depth\s*=\s*([0-9_]+)\s*;", us, "infinite depth")
+    margin = one(r"\(base_time\s*\+\s*increment\)\s*\.min\(time_left\.saturating_sub\(([0-9_]+)\)\)", us, "budget margin")
+    skip = one(r"time_limit\s*=\s*self\.calculate_move_time\(parts,\s*i\)\s*;\s*i\s*\+=\s*([0-9_]+)\s*;", us, "clock skip")
+    t = HEADER.format(src="src/uci.rs")
     t += f"def GO_RESERVE : Nat := {int(reserve.replace('_',''))}\n"
     t += f"def GO_DIVISOR : Nat := {int(divisor.replace('_',''))}\n"
     t += f"def GO_DEFAULT_DEPTH : Nat := {int(ddepth.replace('_',''))}\n"
@@ -353,15 +371,53 @@ def main():
     t += f"def GO_MARGIN : Nat := {int(margin.replace('_',''))}\n"
     t += f"def GO_CLOCK_SKIP : Nat := {int(skip.replace('_',''))}\n"
     t += "\nend Flounder.Gen\n"
-    if write_if_changed(os.path.join(OUT, "Search.lean"), t):
-        changed.append("Search")
+    if write_if_changed(os.path.join(OUT, "Uci.lean"), t):
+        changed.append("Uci")
 
+    return changed
+
+def gen_fen():
+    changed = []
+    fs = strip_comments(open(os.path.join(REPO, "src", "fen.rs")).read())
+    hm_ty = one(r"fn\s+parse_halfmove_clock\([^)]*\)\s*->\s*(u8|u16|u32|u64)", fs, "halfmove type")
+    fm_ty = one(r"fn\s+parse_fullmove_counter\([^)]*\)\s*->\s*(u8|u16|u32|u64)", fs, "fullmove type")
+    t = HEADER.format(src="src/fen.rs")
+    t += f"def FEN_HALFMOVE_BOUND : Nat := {1 << BITS[hm_ty]}\n"
+    t += f"def FEN_FULLMOVE_BOUND : Nat := {1 << BITS[fm_ty]}\n"
+    t += "\nend Flounder.Gen\n"
+    if write_if_changed(os.path.join(OUT, "Fen.lean"), t):
+        changed.append("Fen")
+
+    return changed
+
+def main():
+    """every Gen file is produced by its own section; a section that cannot parse its source FAILS CLOSED for that file only
+    (the previous Gen file stays in place, the failure is recorded in Gen/.status.json and reported by ./check for every
+    property whose Lean modules import that file)."""
+    import json
+    changed, failed = [], {}
+    bbc = None
+    try:
+        ch, bbc = gen_bitboard()
+        changed += ch
+    except ExtractError as e:
+        failed["Bitboard"] = str(e)
+    for name, fn, needs_bbc in (("Magic", gen_magic, True), ("Eval", gen_eval, True), ("Search", gen_search, False), ("Uci", gen_uci, False), ("Fen", gen_fen, False)):
+        try:
+            if needs_bbc and bbc is None:
+                raise ExtractError("depends on the constants of bitboard.rs / square.rs / moves.rs, which could not be extracted")
+            changed += fn(bbc) if needs_bbc else fn()
+        except ExtractError as e:
+            failed[name] = str(e)
+        except (OSError, KeyError, ValueError, IndexError) as e:
+            failed[name] = f"{type(e).__name__}: {e}"
+    with open(os.path.join(OUT, ".status.json"), "w") as f:
+        json.dump({"failed": failed, "changed": changed}, f)
+    if failed:
+        print("extract_consts: FAILED for " + "; ".join(f"Gen.{k}: {v}" for k, v in failed.items()) + " | regenerated: " + (",".join(changed) or "(nothing)"))
+        sys.exit(3)
     print("extract_consts: ok; regenerated:", ",".join(changed) if changed else "(nothing changed)")
 
 
 if __name__ == "__main__":
-    try:
-        main()
-    except ExtractError as e:
-        print(f"extract_consts: FAILED: {e}")
-        sys.exit(2)
+    main()
